@@ -470,7 +470,9 @@ pub fn run(ctx: &Ctx) -> Rep {
     // every 2nd class in quick), every in-range index tuple of five_from_permutation; (c) the composite
     // constructors on the same hands.
     {
-        let m = crate::model::Model::build();
+        // (the strength-class table is only needed to pick the class-covering containers; the smoke tier, which runs
+        // under the interpreter, uses three fixed hands instead of building it)
+        let m_opt = if ctx.smoke() { None } else { Some(crate::model::Model::build()) };
         let s5 = crate::drive::par_subsets::<5, X, _, _>(ctx, if ctx.smoke() { 1321 } else { 1 }, mk, |st, c, _| {
             if ctx.smoke() && st.rep.distinct >= 150 {
                 return;
@@ -510,11 +512,14 @@ pub fn run(ctx: &Ctx) -> Rep {
         rep.merge(r5);
 
         let every = ctx.pick(7000, 2, 1) as usize;
-        let classes: Vec<usize> = (1..=m.distinct_keys).filter(|o| o % every == (seed as usize) % every).collect();
-        let sc = par_run(ctx, classes.len(), mk, |st, ci| {
-            let o = classes[ci];
+        let reps: Vec<[u8; 5]> = match &m_opt {
+            Some(m) => (1..=m.distinct_keys).filter(|o| o % every == (seed as usize) % every).map(|o| m.representative[o]).collect(),
+            None => vec![[13, 22, 23, 24, 25], [0, 1, 2, 3, 4]], // the hearts wheel, the spades royal flush
+        };
+        let sc = par_run(ctx, reps.len(), mk, |st, ci| {
+            let o = ci;
             let mut rng = Rng::new(seed, 0xC19_5000 + o as u64);
-            let mut cards: Vec<u8> = m.representative[o].to_vec();
+            let mut cards: Vec<u8> = reps[ci].to_vec();
             while cards.len() < 7 {
                 let x = rng.below(52) as u8;
                 if !cards.contains(&x) {
